@@ -1600,7 +1600,38 @@ def misc_rules(rep, m):
                   'a file may hold a single station: only index 0 always exists')
 
 
+def sign_string_rules(rep, m):
+    """DMSAngle('DD MM SS.S') takes the sign from the FIRST character of the string (angles.py): a fixed-column field that is right-aligned
+    carries leading blanks, so a slice handed to DMSAngle must be left-stripped or every angle between 0 and -10 degrees (and every
+    narrower field) comes back positive"""
+    n = 0
+    for f in m.functions.values():
+        for c in ast.walk(f.node):
+            if isinstance(c, ast.Call) and isinstance(c.func, ast.Name) and c.func.id == 'DMSAngle' and len(c.args) == 1:
+                a = c.args[0]
+                sl = None
+                stripped = False
+                e = a
+                while isinstance(e, ast.Call) and isinstance(e.func, ast.Attribute) and not e.args:
+                    if e.func.attr in ('strip', 'lstrip'):
+                        stripped = True
+                    e = e.func.value
+                if isinstance(e, ast.Subscript) and isinstance(e.slice, ast.Slice):
+                    sl = slice_bounds(e)
+                if sl is None:
+                    continue
+                n += 1
+                key = 'R-FORMAT::geodepy/gnss.py::%s::DMSAngle(line[%s:%s])' % (f.qualname, sl[0], sl[1])
+                if stripped:
+                    rep.holds('R-FORMAT', key, where(f, c), 'the fixed-column field is left-stripped before DMSAngle reads its sign from the first character')
+                else:
+                    rep.violated('R-FORMAT', key, where(f, c), 'the fixed-column field line[%s:%s] is handed to DMSAngle with its leading blanks: DMSAngle takes the sign from the first '
+                                 'character, so " -5 30 00.0" is read as +5 30 00' % sl, expected='line[%s:%s].lstrip()' % sl, actual=stmt_text(a)[:80])
+    return n
+
+
 def run2(rep, m):
+    sign_string_rules(rep, m)
     misc_rules(rep, m)
     splice_rules(rep, m)
     table_rules(rep, m)
